@@ -42,6 +42,7 @@ type tColl struct {
 	LB [][]byte         `thrift:"4"`
 	LS []tInner         `thrift:"5"`
 	LO []bool           `thrift:"6"`
+	MS map[int8]tInner  `thrift:"7"`
 }
 
 // field ids out of declaration order and far apart
@@ -53,6 +54,7 @@ type tSparse struct {
 	E int64  `thrift:"3000"`
 	F bool   `thrift:"2,required"`
 	G int8   `thrift:"130,required"`
+	H int16  `thrift:"101"`
 }
 
 func i8v() int64 { return int64(int8(vfByte())) }
@@ -474,6 +476,14 @@ func collDOM(x tColl, full bool) tval {
 		}
 		fs = append(fs, tfld{6, dList(BOOL, es)})
 	}
+	if len(x.MS) != 0 || full {
+		v := tval{t: MAP, kt: I8, et: STRUCT}
+		for k, e := range x.MS {
+			v.ks = append(v.ks, dInt(I8, int64(k)))
+			v.es = append(v.es, innerDOM(e, full))
+		}
+		fs = append(fs, tfld{7, v})
+	}
 	return dStruct(fs...)
 }
 
@@ -492,9 +502,34 @@ func sparseDOM(x tSparse, full bool) tval {
 	if x.A != 0 || full {
 		fs = append(fs, tfld{100, dInt(I32, int64(x.A))})
 	}
+	if x.H != 0 || full {
+		fs = append(fs, tfld{101, dInt(I16, int64(x.H))})
+	}
 	fs = append(fs, tfld{130, dInt(I8, int64(x.G))})
 	if x.E != 0 || full {
 		fs = append(fs, tfld{3000, dInt(I64, x.E)})
+	}
+	return dStruct(fs...)
+}
+
+// a union: at most one member is set; F points at the member that was decoded
+type tUnion struct {
+	A bool   `thrift:"1"`
+	B int32  `thrift:"2"`
+	C string `thrift:"3"`
+	F any    `thrift:",union"`
+}
+
+func unionDOM(x tUnion) tval {
+	var fs []tfld
+	if x.A {
+		fs = append(fs, tfld{1, dBool(true)})
+	}
+	if x.B != 0 {
+		fs = append(fs, tfld{2, dInt(I32, int64(x.B))})
+	}
+	if x.C != "" {
+		fs = append(fs, tfld{3, dBin([]byte(x.C))})
 	}
 	return dStruct(fs...)
 }
@@ -561,7 +596,7 @@ var tshapes = []tshape{
 		},
 		dom:  func(v any) tval { return optDOM(v.(tOpt), false) },
 		full: func(v any) tval { return optDOM(v.(tOpt), true) }},
-	{name: "coll", ids: []int16{1, 2, 3, 4, 5, 6},
+	{name: "coll", ids: []int16{1, 2, 3, 4, 5, 6, 7},
 		mk: func() any {
 			v := tColl{}
 			n := vfLen2
@@ -576,6 +611,10 @@ var tshapes = []tshape{
 				v.LB = append(v.LB, vfBytes(vfLen))
 				v.LS = append(v.LS, tInner{X: int32(i8v())})
 				v.LO = append(v.LO, vfBool())
+			}
+			if n > 0 {
+				// two entries whose omitted (zero) fields differ: a decoder that reuses an element must reset it
+				v.MS = map[int8]tInner{1: {X: int32(i8v())}, 2: {Y: vfString(1)}}
 			}
 			return v
 		},
@@ -605,6 +644,12 @@ var tshapes = []tshape{
 			for i := 0; i < len(a.LS) && i < len(b.LS); i++ {
 				checkInnerT(a.LS[i], b.LS[i], "coll.LS")
 			}
+			vfAssert(len(a.MS) == len(b.MS), "coll.MS-len")
+			for k, x := range a.MS {
+				y, ok := b.MS[k]
+				vfAssert(ok, "coll.MS-key")
+				checkInnerT(x, y, "coll.MS-val")
+			}
 			vfAssert(len(a.LO) == len(b.LO), "coll.LO-len")
 			for i := 0; i < len(a.LO) && i < len(b.LO); i++ {
 				vfAssert(a.LO[i] == b.LO[i], "coll.LO")
@@ -612,9 +657,9 @@ var tshapes = []tshape{
 		},
 		dom:  func(v any) tval { return collDOM(v.(tColl), false) },
 		full: func(v any) tval { return collDOM(v.(tColl), true) }},
-	{name: "sparse", ids: []int16{1, 2, 16, 17, 100, 130, 3000},
+	{name: "sparse", ids: []int16{1, 2, 16, 17, 100, 101, 130, 3000},
 		mk: func() any {
-			return tSparse{A: int32(wideI(0)), B: vfString(vfLen), C: vfBool(), D: vfBool(), E: wideI(1), F: vfBool(), G: int8(vfByte())}
+			return tSparse{A: int32(wideI(0)), B: vfString(vfLen), C: vfBool(), D: vfBool(), E: wideI(1), F: vfBool(), G: int8(vfByte()), H: int16(i8v())}
 		},
 		newp: func() any { return new(tSparse) },
 		check: func(v, p any) {
@@ -626,9 +671,45 @@ var tshapes = []tshape{
 			vfAssert(a.E == b.E, "sparse.E")
 			vfAssert(a.F == b.F, "sparse.F")
 			vfAssert(a.G == b.G, "sparse.G")
+			vfAssert(a.H == b.H, "sparse.H")
 		},
 		dom:  func(v any) tval { return sparseDOM(v.(tSparse), false) },
 		full: func(v any) tval { return sparseDOM(v.(tSparse), true) }},
+	{name: "union", ids: []int16{1, 2, 3},
+		mk: func() any {
+			v := tUnion{}
+			switch vfIntIn(0, 3) {
+			case 1:
+				v.A = true
+			case 2:
+				v.B = int32(wideI(0))
+			case 3:
+				v.C = vfString(vfLen)
+			}
+			return v
+		},
+		newp: func() any { return new(tUnion) },
+		check: func(v, p any) {
+			a, b := v.(tUnion), p.(*tUnion)
+			vfAssert(a.A == b.A, "union.A")
+			vfAssert(a.B == b.B, "union.B")
+			vfAssert(a.C == b.C, "union.C")
+			set := a.A || a.B != 0 || a.C != ""
+			vfAssert((b.F != nil) == set, "union.F-set-iff-a-member-is")
+			switch x := b.F.(type) {
+			case *bool:
+				vfAssert(a.A && x == &b.A, "union.F-points-at-member-A")
+			case *int32:
+				vfAssert(a.B != 0 && x == &b.B, "union.F-points-at-member-B")
+			case *string:
+				vfAssert(a.C != "" && x == &b.C, "union.F-points-at-member-C")
+			case nil:
+			default:
+				vfAssert(false, "union.F-type")
+			}
+		},
+		dom:  func(v any) tval { return unionDOM(v.(tUnion)) },
+		full: func(v any) tval { return unionDOM(v.(tUnion)) }},
 }
 
 // other protocol for cross-protocol checks
